@@ -54,8 +54,8 @@ def sample(pid, tier, seed, n, only=None):
     for case in mod.cases(tier, seed):
         if case.engine != 'symnp' or (only and not re.search(only, case.name)):
             continue
-        k = getattr(case, 'concrete_samples', n)
-        for i in range(min(n, k) if k is not None else n):
+        k = getattr(case, 'concrete_samples', None)
+        for i in range(k if k is not None else n):
             rng = random.Random('%s/%s/%d/%d' % (pid, case.name, seed, i))
             w = ConcreteWorld({}, case.params, rng=rng)
             rec = dict(case=case.name, i=i)
